@@ -209,12 +209,14 @@ def equiv_pass(run, cases, caps, prop, log):
                 continue
         a, b = m['pair']
         v = ans.get((i, 'EQUIV %d %d %d' % (a, b, EQ_FUEL[run.tier])), '')
+        fs = run.coverage.setdefault('verdicts_by_family', {}).setdefault(c['family'], {})
+        fs[v.split(' ')[0] or 'none'] = fs.get(v.split(' ')[0] or 'none', 0) + 1
         if v.startswith('EQ'):
             eq += 1
             if len(samples) < 5:
                 samples.append(dict(definition=c['src'], verdict=v))
         elif v.startswith('NE'):
-            _, whex, ma, mb = v.split(' ')
+            _, whex, ma, mb = v.split(' ')[:4]
             run.violation('language-differs', dict(definition=c['src'], family=c['family'], witness_hex=whex,
                                                    witness_text=bytes.fromhex(whex if whex != '-' else '').decode('utf-8', 'replace'),
                                                    leaf_a_matches=ma, leaf_b_matches=mb,
